@@ -282,6 +282,9 @@ def run(ctx):
                 ok2 = 2 in s0["args"] and bool(s1["upvars"]) and not s1["binops"]
         ok = ok and ok2
         det += f"; closure yields repeat_n(group_index, threads_per_group): {ok2}"
+    if not fm:
+        # nested-loop spelling: for g in 0..groups { for _ in 0..threads_per_group { v.push(g) } }
+        ok, det = _group_indexes_by_loops(ex)
     ctx.ob("R3.grouping", "group-indexes", ok, ex.loc(), det or f"flat_map sites {len(fm)}")
     # threads_per_group = thread_count / groups with remainder assertion dominating execute_task
     dr = [(bb, t) for bb, t in ex.calls() if t["callee"].get("method") == "div_rem"]
@@ -351,3 +354,45 @@ def builder_rules(ctx, prog):
         ctx.ob(RID, f"{self_adt.split('::')[-1]}::{b.name}", ok, b.loc(), "; ".join(det))
     if n == 0:
         ctx.missing(RID, "by-value builder methods in par_bench::configure")
+
+
+def _group_indexes_by_loops(ex):
+    from ..analysis import loop_blocks
+    pushes = [(bb, t) for bb, t in ex.calls() if t["callee"].get("method") == "push" and "Vec" in callee_key(t["callee"]) and ex.in_loop(bb)]
+    rngs = []
+    for blk in ex.blocks:
+        for st in blk.stmts:
+            if st["k"] == "assign" and st["rv"]["k"] == "aggr" and (st["rv"].get("adt") or "").endswith("ops::Range"):
+                rngs.append(st)
+    for pbb, pt in pushes:
+        nexts = [(bb, t) for bb, t in ex.calls() if t["callee"].get("method") == "next" and "ops::Range" in t["callee"].get("full", "") and
+                 ex.in_loop(bb) and pbb in loop_blocks(ex, bb)]
+        if len(nexts) != 2:
+            continue
+        val = Slice(ex).run(pt["args"][1])
+        outer = [t for _bb, t in nexts if any(ct is t for _k, _b, ct in val["calls"])]
+        inner = [t for _bb, t in nexts if t not in outer]
+        if len(outer) != 1 or len(inner) != 1 or val["binops"]:
+            continue
+        # the inner loop nests inside the outer one
+        obb = [bb for bb, t in nexts if t is outer[0]][0]
+        ibb = [bb for bb, t in nexts if t is inner[0]][0]
+        # the inner range is (re)built inside the outer loop, the outer range before it
+        def range_block(t):
+            r = Slice(ex).run(t["args"][0])["locals"]
+            for blk in ex.blocks:
+                for st in blk.stmts:
+                    if st in rngs and st["place"]["l"] in r:
+                        return blk.idx
+            return None
+        lo = loop_blocks(ex, obb)
+        nested = ibb in lo and range_block(inner[0]) in lo and range_block(outer[0]) not in lo
+        so = Slice(ex).run(outer[0]["args"][0])
+        si = Slice(ex).run(inner[0]["args"][0])
+        o_ok = any(f.endswith("ConfiguredRun::groups") for f in so["fields"]) and any(c.get("val") == 0 for c in so["consts"]) and not so["binops"]
+        i_names = {k.split("::")[-1] for k, _b, _t in si["calls"]}
+        i_ok = any(c.get("val") == 0 for c in si["consts"]) and "thread_count" in i_names and \
+            ({"div_rem", "checked_div", "div_euclid"} & i_names or "Div" in si["binops"]) and not ({"Mul", "Add", "Sub"} & set(si["binops"]))
+        ok = nested and o_ok and i_ok
+        return ok, (f"nested loops: outer 0..self.groups {o_ok}, inner 0..threads_per_group {i_ok}, nested {nested}; the pushed value is the outer counter")
+    return False, "neither a flat_map(repeat_n) chain nor a nested push loop builds the group index list"
